@@ -37,6 +37,7 @@ type c05Spec struct {
 	BbLoad   int  `json:"bb_load"`
 	CcLoad   int  `json:"cc_load"`
 	Reload   int  `json:"reload"` // 0 none, 1 aa:RELOAD s, 2 bb:RELOAD s, 3 bb:RELOAD t, 4 root:RELOAD s
+	RelLate  bool `json:"reload_after_map"` // RELOAD placed after the MAP lines of its node (same page) instead of before them
 	Mode     string `json:"mode"`
 	CacheSz  uint32 `json:"cache_size"`
 }
@@ -100,11 +101,16 @@ func c05App(sp c05Spec) (*app.App, bool) {
 		if l := loads[n]; l.Sym != "" {
 			code = append(code, codec.Ins{Op: codec.LOAD, Sym: l.Sym, N: l.N})
 		}
+		var late []codec.Ins
 		if r, ok := reloadAt[sp.Reload]; ok && r[0] == n {
 			if _, v := vis[r[1]]; !v {
 				return nil, false
 			}
-			code = append(code, codec.Ins{Op: codec.RELOAD, Sym: r[1]})
+			if sp.RelLate {
+				late = append(late, codec.Ins{Op: codec.RELOAD, Sym: r[1]})
+			} else {
+				code = append(code, codec.Ins{Op: codec.RELOAD, Sym: r[1]})
+			}
 		}
 		tpl := n + ":"
 		sinks := 0
@@ -120,6 +126,7 @@ func c05App(sp c05Spec) (*app.App, bool) {
 			code = append(code, codec.Ins{Op: codec.MAP, Sym: s})
 			tpl += " " + s + "={{." + s + "}}"
 		}
+		code = append(code, late...)
 		code = append(code, codec.Ins{Op: codec.HALT})
 		code = append(code, routes[n]...)
 		a.Node(n, tpl, code...)
@@ -154,6 +161,14 @@ func c05Specs(thorough bool) []c05Spec {
 						for _, m := range modes {
 							sp.Mode = m
 							out = append(out, sp)
+						}
+						if rel != 0 && (thorough || (rl+al+bl)%3 == 0) {
+							// the same application with the RELOAD after the MAP lines (value must be refreshed on the page)
+							sp.RelLate = true
+							for _, m := range modes {
+								sp.Mode = m
+								out = append(out, sp)
+							}
 						}
 					}
 				}
